@@ -207,6 +207,13 @@ void	psf_fsync (SF_PRIVATE *psf)	{ (void) psf ; }
 int
 psf_fclose (SF_PRIVATE *psf)
 {	MEMFILE *f = mf_of (psf) ;
+	/* file_io.c: nothing is closed for virtual I/O or when the caller keeps ownership of the descriptor */
+	if (psf->virtual_io)
+		return 0 ;
+	if (psf->file.do_not_close_descriptor)
+	{	psf->file.filedes = -1 ;
+		return 0 ;
+		} ;
 	f->n_close ++ ;
 	psf->file.filedes = -1 ;
 	return 0 ;
@@ -215,5 +222,16 @@ psf_fclose (SF_PRIVATE *psf)
 int	psf_file_valid (SF_PRIVATE *psf)	{ return psf->file.filedes >= 0 ; }
 void	psf_init_files (SF_PRIVATE *psf)	{ psf->file.filedes = -1 ; psf->rsrc.filedes = -1 ; psf->file.savedes = -1 ; }
 void	psf_set_file (SF_PRIVATE *psf, int fd)	{ psf->file.filedes = fd ; }
-int	psf_close_rsrc (SF_PRIVATE *psf)	{ (void) psf ; return 0 ; }
+int	psf_copy_filename (SF_PRIVATE *psf, const char *path)	{ (void) path ; psf->file.path [0] = 0 ; psf->file.dir [0] = 0 ; psf->file.name [0] = 0 ; return 0 ; }
+int	mf_rsrc_closes, mf_rsrc_closed_fd = -1 ;
+int
+psf_close_rsrc (SF_PRIVATE *psf)
+{	/* file_io.c: psf_close_fd (psf->rsrc.filedes) - closes whatever number is stored there, if >= 0 */
+	if (psf->rsrc.filedes >= 0)
+	{	mf_rsrc_closes ++ ;
+		mf_rsrc_closed_fd = psf->rsrc.filedes ;
+		} ;
+	psf->rsrc.filedes = -1 ;
+	return 0 ;
+}
 void	psf_use_rsrc (SF_PRIVATE *psf, int on_off)	{ (void) psf ; (void) on_off ; }
